@@ -23,7 +23,8 @@ v_last = z3.Function("v_last", A.ArrV, S.REAL)
 v_first = z3.Function("v_first", A.ArrV, S.REAL)
 v_linspace = z3.Function("v_linspace", S.REAL, S.REAL, S.INT, A.ArrV)
 v_insert0 = z3.Function("v_insert0", A.ArrV, S.REAL, A.ArrV)  # np.insert(a, 0, x)
-v_opaque = z3.Function("v_opaque", S.INT, A.ArrV, A.ArrV)  # shape-only transformations of other arrays
+v_opaque = z3.Function("v_opaque", S.INT, A.ArrV, A.ArrV)
+v_adds = z3.Function("v_adds_tp", A.ArrV, S.REAL, A.ArrV)  # a + r (scalar r)  # shape-only transformations of other arrays
 v_keep_ge = z3.Function("v_keep_ge", A.ArrV, S.REAL, A.ArrV)  # a[a >= x]
 v_drop_ge = z3.Function("v_drop_ge", A.ArrV, S.REAL, A.ArrV)  # a[~(a >= x)]
 _USED = "numpy time-point vectors: ghost last element; np.array copies; a[a >= x] keeps the last element when it is >= x; (a - r)[-1] = a[-1] - r (pyvc/lib_tp.py)"
@@ -41,6 +42,7 @@ def _axioms(ex: Exec) -> None:
     x, r = z3.Real("x!tp"), z3.Real("r!tp")
     ex.assume(z3.ForAll([a, x], z3.Implies(v_last(a) >= x, v_last(v_keep_ge(a, x)) == v_last(a)), patterns=[v_keep_ge(a, x)]))
     ex.assume(z3.ForAll([a, r], v_last(A.vsub(a, A.vec_of(S.mk_real(r)))) == v_last(a) - r, patterns=[A.vsub(a, A.vec_of(S.mk_real(r)))]))
+    ex.assume(z3.ForAll([a, r], v_last(v_adds(a, r)) == v_last(a) + r, patterns=[v_adds(a, r)]))
     n = z3.Int("n!tp")
     lo, hi = z3.Real("lo!tp"), z3.Real("hi!tp")
     # np.linspace(lo, hi, n): starts at lo; ends at hi when it has at least two points, at lo with one
@@ -168,3 +170,24 @@ def _attr(ex: Exec, base: SV, name: str):
 
 lib.ATTR_HOOKS.append(_attr)
 _spec._TABLE.update({"v_first": lambda ex, node: sv_real(v_first(A.arrv(ex, ex.eval(node.args[0]))))})
+
+
+_prev_inplace = lib.inplace_hook
+
+
+def _inplace(ex: Exec, op, target: SV, value: SV, what: str):
+    """time += shift / time -= shift on a numpy array: the array OBJECT is updated (numpy
+    in-place arithmetic), so the write is subject to the frame check."""
+    if value.ty.kind == "union" and any(x.is_num for x in value.ty.args):
+        value = ex.strip_none(value)  # Optional[float] guarded by `is not None` in the code
+    if _on(ex) and A.is_arr(target) and isinstance(op, (ast.Add, ast.Sub)) and (value.ty.is_num or value.ty.kind == "any"):
+        _axioms(ex)
+        oid = ex.ref_id(target)
+        r = ex.num(value)
+        ex.check_frame(oid, "arrc", what)
+        ex.wr("arrc", oid, v_adds(A.arrv(ex, target), r if isinstance(op, ast.Add) else -r))
+        return True
+    return _prev_inplace(ex, op, target, value, what)
+
+
+lib.inplace_hook = _inplace
